@@ -237,16 +237,16 @@ fn check(s: &Shape, r: &mut Report) {
 fn shapes(quick: bool) -> Vec<Shape> {
     let mut v = vec![Shape::Tetra, Shape::Octa, Shape::Dodeca, Shape::Icosa];
     for (lo, hi) in [([-1.0f32; 3], [1.0f32; 3]), ([0.0, 0.0, 0.0], [1.0, 2.0, 3.0]), ([-20.0, 0.0, 0.01], [100.0, 50.0, 100.0]), ([5.0, 5.0, 5.0], [5.5, 9.0, 6.0]), ([-3.0, -2.0, -1.0], [-1.0, -1.5, 4.0])] { v.push(Shape::Box3 { lo, hi }); }
-    let (msec, mseg) = if quick { (16, 10) } else { (32, 24) };
+    let (msec, mseg) = if quick { (16, 10) } else { (48, 32) };
     let radii = [0.5f32, 1.0, 3.0];
     for sec in 3..=msec { for seg in 2..=mseg { for r in radii { v.push(Shape::Sphere { sec, seg, r }); } } }
     for maj in 3..=msec { for min in 3..=mseg { for (rmaj, rmin) in [(1.0f32, 0.25f32), (3.0, 1.0), (2.0, 0.5)] { v.push(Shape::Torus { maj, min, rmaj, rmin }); } } }
-    let cseg = if quick { 6 } else { 10 };
+    let cseg = if quick { 6 } else { 16 };
     for sec in 3..=msec { for seg in 1..=cseg { for capped in [true, false] {
         for r in radii { v.push(Shape::Cyl { sec, seg, capped, r }); }
         for (rb, ra) in [(1.0f32, 0.0f32), (0.0, 1.0), (1.0, 0.5), (0.5, 3.0), (3.0, 0.5), (4.0, 0.0), (0.25, 0.0)] { v.push(Shape::Cone { sec, seg, capped, rb, ra }); }
     }}}
-    let (mb, mc) = if quick { (4, 4) } else { (8, 8) };
+    let (mb, mc) = if quick { (4, 4) } else { (10, 10) };
     for sec in 3..=msec { for body in 1..=mb { for cap in 1..=mc { for r in radii { v.push(Shape::Capsule { sec, body, cap, r }); } } } }
     // magnitude sentinels: very small and very large radii on a thinned set of counts
     for r in [1e-7f32, 1e-6, 1e-5, 1e-4, 1e-3, 0.02, 100.0, 1e4] { for sec in [3u32, 7, 16] { for seg in [2u32, 5] {
